@@ -85,8 +85,13 @@ def _run_cvc5(smt2, tlimit_ms):
         p = subprocess.run([CVC5, '--strings-exp', '--tlimit=%d' % tlimit_ms, '--lang=smt2', path],
                            capture_output=True, text=True, timeout=tlimit_ms / 1000 + 10)
         out = p.stdout.strip().splitlines()
+        if out and out[0] not in ('sat', 'unsat', 'unknown') and os.environ.get('PYVC_DEBUG'):
+            import sys
+            print('cvc5 says: %s %s' % (out[:2], p.stderr[:300]), file=sys.stderr)
         return out[0] if out else 'unknown'
-    except Exception:
+    except Exception as e:
+        import sys
+        print('cvc5 wrapper error: %r' % e, file=sys.stderr)
         return 'unknown'
     finally:
         os.unlink(path)
@@ -112,7 +117,11 @@ def check_one(hyps, goal, z3_ms, cvc5_ms, watch=None):
                 model[k] = 'eval-error: %s' % e
         return 'sat', 'z3', time.time() - t0, model
     if cvc5_ms > 0 and os.path.exists(CVC5):
-        r2 = _run_cvc5(s.to_smt2(), cvc5_ms)
+        s2 = Solver()           # a solver that has not been checked: z3 rewrites seq.nth after check()
+        for h in hyps:
+            s2.add(h)
+        s2.add(Not(goal))
+        r2 = _run_cvc5(s2.to_smt2(), cvc5_ms)
         if r2 == 'unsat':
             return 'unsat', 'cvc5', time.time() - t0, None
         if r2 == 'sat':
